@@ -62,6 +62,15 @@ def check_policy(ctx: Ctx, backend: str, name: str, cfg: dict, pol: dict, parts)
         ctx.ob("T5", fn, f"delimiters {s(need_)!r} of {role} quoter ({cfgs})", not bad_dec and not bad_lit,
                f"delimiter status not preserved: escaped {s(bad_dec)!r} would be decoded / literal {s(bad_lit)!r} would be escaped",
                sample=f"{s(need_)!r}: literal stays literal, escaped stays escaped")
+    if "keep" in parts and o.get("keep") and pol["escapes"]:
+        ctx.instance("T5-keep")
+        need_ = o["keep"]
+        bad_dec = need_ & dec
+        bad_lit = need_ - lit
+        ctx.ob("T5-keep", fn, f"escapes of {s(need_)!r} in an already-canonical {role} ({cfgs})", not bad_dec and not bad_lit,
+               f"an already-canonical {role} is rewritten: escaped {s(bad_dec)!r} would be decoded / literal {s(bad_lit)!r} would be "
+               "escaped ('%2B' and '+' are different data for anything that form-decodes the path)",
+               sample=f"{s(need_)!r}: literal stays literal, escaped stays escaped")
     if "term" in parts:
         ctx.instance("T6")
         bad = (lit | dec) & o["term"]
